@@ -255,6 +255,80 @@ func xstateOracles(gs *GameState, c xcfg) []xchk {
 			if sum != 0 {
 				add("C01", "zero-sum", "changes sum to %d", sum)
 			}
+			// C02: every layer of the pot goes to the best hand(s) among the non-folded seats that paid into it.
+			// Expected take per seat from the contributions, fold flags and reported hand strengths; odd chips may
+			// go to any tied winner, so the take is checked against the floor/ceiling bounds layer by layer.
+			chg := make([]int64, n)
+			have := 0
+			for _, r := range gs.Result.Players {
+				if r.Idx >= 0 && r.Idx < n {
+					chg[r.Idx] = r.Changed
+					have++
+				}
+			}
+			if have == n {
+				in := make([]int64, n)
+				tops := []int64{}
+				for i, p := range gs.Players {
+					in[i] = p.Pot + p.Wager
+					tops = append(tops, in[i])
+				}
+				tops = uniq(tops)
+				lo, hi := make([]int64, n), make([]int64, n)
+				okLayers := true
+				var bottom int64
+				for _, top := range tops {
+					if top == 0 {
+						continue
+					}
+					var amount int64
+					best, k := -1, int64(0)
+					for i, p := range gs.Players {
+						if in[i] > bottom {
+							x := in[i]
+							if x > top {
+								x = top
+							}
+							amount += x - bottom
+						}
+						if in[i] >= top && !p.Fold {
+							sc := 0
+							if p.Combination != nil {
+								sc = p.Combination.Power
+							}
+							if sc > best {
+								best, k = sc, 0
+							}
+							if sc == best {
+								k++
+							}
+						}
+					}
+					if k == 0 {
+						okLayers = false // a layer only folded seats paid into: the statement does not say who gets it
+						break
+					}
+					for i, p := range gs.Players {
+						sc := 0
+						if p.Combination != nil {
+							sc = p.Combination.Power
+						}
+						if in[i] >= top && !p.Fold && sc == best {
+							lo[i] += amount / k
+							hi[i] += (amount + k - 1) / k
+						}
+					}
+					bottom = top
+				}
+				if okLayers {
+					for i := range gs.Players {
+						take := chg[i] + in[i]
+						if take < lo[i] || take > hi[i] {
+							add("C02", "layer-payout", "seat %d (put in %d, folded %v) takes %d out; the layers it wins give between %d and %d", i, in[i], gs.Players[i].Fold, take, lo[i], hi[i])
+						}
+					}
+				}
+			}
 			alive := 0
 			for _, p := range gs.Players {
 				if !p.Fold {
